@@ -302,6 +302,7 @@ func (c *Cluster) PingNode(host string) (bool, error) {
 	if err != nil {
 		return false, err
 	}
+	defer func() { _ = node.Close() }()
 	ok, err := node.Ping()
 	if err != nil && IsErrorDubious(err) {
 		return false, err
